@@ -38,6 +38,12 @@ func (df *DataFrame) Resample(datetimeColumn string, freq string, aggFunc func([
 		return nil, fmt.Errorf("datetime column '%s' does not exist", datetimeColumn)
 	}
 
+	switch freq {
+	case "Y", "M", "D", "H", "T", "S":
+	default:
+		return nil, fmt.Errorf("unsupported frequency '%s' (must be one of Y, M, D, H, T, S)", freq)
+	}
+
 	resampled := NewDataFrame()
 	resampled.Columns[datetimeColumn] = &Column[any]{
 		Name: datetimeColumn,
